@@ -469,11 +469,15 @@ impl TableStore {
     }
 
     fn add_head(&self, table: &Arc<ReadonlyTable>) -> TableStoreResult<()> {
+        #[cfg(feature = "jj_vcs_jj_verif")]
+        crate::verif_hooks::point("table.add_head", &table.name);
         std::fs::write(self.dir.join("heads").join(&table.name), "")
             .map_err(TableStoreError::SaveHeads)
     }
 
     fn remove_head(&self, table: &Arc<ReadonlyTable>) {
+        #[cfg(feature = "jj_vcs_jj_verif")]
+        crate::verif_hooks::point("table.remove_head", &table.name);
         // It's fine if the old head was not found. It probably means
         // that we're on a distributed file system where the locking
         // doesn't work. We'll probably end up with two current
@@ -507,6 +511,8 @@ impl TableStore {
     }
 
     fn get_head_tables(&self) -> TableStoreResult<Vec<Arc<ReadonlyTable>>> {
+        #[cfg(feature = "jj_vcs_jj_verif")]
+        crate::verif_hooks::point("table.read_heads", "");
         let mut tables = vec![];
         for head_entry in
             std::fs::read_dir(self.dir.join("heads")).map_err(TableStoreError::LoadHeads)?
